@@ -27,6 +27,11 @@ STMT_CONSTRUCTS = {
     "while": "while (q) { q = q - 1; }",
     "do": "do { q = q - 1; } while (q);",
     "switch": "switch (q) { case 1: q = 2; }",
+    "switch_nolabel": "switch (q) { q = 2; }",
+    "switch_bare": "switch (q) q = 2;",
+    "switch_default": "switch (q) { default: q = 2; }",
+    "while_empty": "while (q) ;",
+    "if_else_switch": "if (q) { q = 1; } else switch (q) { q = 3; }",
     "unknown_fn_stmt": "frobnicate(q);",
     "return_void": "return;",
     "member_stmt": "q.x = 1;",
